@@ -1712,3 +1712,67 @@ pub fn c18_from_bytes(nd: &mut Nondet) {
         Err(_) => cover("c18.bytes.rejected"),
     }
 }
+
+// ------------------------------------------------------------------------------------------ C04/C19 varint framing, receive side
+enum RefVarint { Ok(usize, usize), NeedMore, Bad }
+
+/// reference: unsigned LEB128 of at most 10 bytes with minimal encoding, as the `unsigned-varint` crate defines it
+/// (bits of the 10th byte that do not fit 64 bits are dropped, not rejected - a first version of this oracle
+/// rejected them and raised a false alarm against the library's own semantics)
+fn ref_varint(h: &[u8]) -> RefVarint {
+    let mut value: u64 = 0;
+    let mut i = 0;
+    while i < h.len() && i < 10 {
+        let b = h[i];
+        if b & 0x80 == 0 {
+            if b == 0 && i > 0 { return RefVarint::Bad; }
+            value |= (b as u64).wrapping_shl(7 * i as u32);
+            return RefVarint::Ok(value as usize, i + 1);
+        }
+        value |= ((b & 0x7f) as u64).wrapping_shl(7 * i as u32);
+        i += 1;
+    }
+    if h.len() < 10 { RefVarint::NeedMore } else { RefVarint::Bad }
+}
+
+/// C04 + C19: a length-prefixed frame from the network: every header byte is solver-chosen.
+pub fn c04_varint_receive(nd: &mut Nondet) {
+    let max = match nd.choose("max_size", 3) { 0 => 0usize, 1 => 2, _ => 5 };
+    let k = 1 + nd.choose("header_len", 11) as usize;
+    let mut incoming: Vec<u8> = Vec::new();
+    for _ in 0..k { incoming.push(nd.u8("header")); }
+    let p = nd.choose("payload_len", 7) as usize;
+    for j in 0..p { incoming.push(0x40 + j as u8); }
+    let expected = incoming.clone();
+    let io = ScriptedIo::new(nd, incoming);
+    let peer = nd.peer_id_fixed(1);
+    let mut sub = Substream::new_verif(peer, SubstreamId::from(0usize), Box::new(io), ProtocolCodec::UnsignedVarint(Some(max)));
+    let waker = noop_waker();
+    let mut cx = Context::from_waker(&waker);
+    let mut polls = 0;
+    loop {
+        polls += 1;
+        if polls > 24 { check("c04v.terminates", false); return; }
+        match Pin::new(&mut sub).poll_next(&mut cx) {
+            Poll::Pending => { cover("c04v.pending"); continue; }
+            Poll::Ready(got) => {
+                match ref_varint(&expected) {
+                    RefVarint::Bad => { cover("c04v.bad-prefix"); check("c04v.malformed-prefix-is-an-error", matches!(got, Some(Err(_)))); }
+                    RefVarint::NeedMore => { cover("c04v.eof-in-prefix"); check("c04v.eof-in-prefix-ends-the-stream", got.is_none()); }
+                    RefVarint::Ok(size, used) => {
+                        if size > max { cover("c04v.oversized"); check("c04v.oversized-length-is-an-error", matches!(got, Some(Err(_)))); }
+                        else if expected.len() - used < size { cover("c04v.eof-in-frame"); check("c04v.eof-in-frame-ends-the-stream", got.is_none()); }
+                        else {
+                            cover("c04v.frame");
+                            match got {
+                                Some(Ok(frame)) => check("c04v.frame-is-the-announced-bytes", frame[..] == expected[used..used + size]),
+                                _ => check("c04v.wellformed-frame-is-delivered", false),
+                            }
+                        }
+                    }
+                }
+                return;
+            }
+        }
+    }
+}
